@@ -625,7 +625,16 @@ func (r *FnRun) addrIdent(p PtrVal) Term {
 			code = len(r.fcodes) + 1
 			r.fcodes[p.Root+"|"+p.Path] = code
 		}
-		return App("fieldaddr", SInt, p.Ref, IntLit(int64(code)))
+		t := App("fieldaddr", SInt, p.Ref, IntLit(int64(code)))
+		// interior addresses are distinct from object references (which are
+		// >= 0) and from each other
+		r.declareFun("fa_ref", []Sort{SInt}, SInt)
+		r.declareFun("fa_code", []Sort{SInt}, SInt)
+		if r.cur != nil && !strings.Contains(t.S, "q_") && !r.cur.ranged["fa:"+t.S] {
+			r.cur.ranged["fa:"+t.S] = true
+			r.assume(And(Lt(t, IntLit(0)), Eq(App("fa_ref", SInt, t), p.Ref), Eq(App("fa_code", SInt, t), IntLit(int64(code)))))
+		}
+		return t
 	}
 	if p.Kind == pkCell {
 		return IntLit(int64(-1000 - p.Cell.id))
